@@ -20,7 +20,7 @@ func init() {
 		ID: "C12", Level: "model_checking",
 		Rule:   "ELX fault enumeration on the real Client: a recorded server byte stream answering 2 requests (SETTINGS, header blocks with CONTINUATION, padded DATA, WINDOW_UPDATE, PING, trailers-less END_STREAM) cut at EVERY byte offset; every single structural mutation of it (delete / duplicate / swap frames, each flag bit, each type 0..10, stream id 0/+2/-2/even, length +-1); scripted hostile behaviours (RST_STREAM, GOAWAY, oversized frame, garbage, PUSH_PROMISE, silence until the virtual MaxResponseTime, a late response after the timeout followed by another exchange); the client's k-th transport Write failing for every k; Client.Close at every point. Then virtual timers fire until nothing is pending. Oracle: every RoundTrip returns exactly once; a success carries exactly the status and body the (faulted) script completed on that stream with END_STREAM, never a truncated one; no unrecovered panic; after the connection died or Close, no managed goroutine of it is alive and its queues are empty. Non-trivial: every faulted scenario; distinct by scenario.",
 		Assume: []string{"'within its configured timeout' = after the request's virtual MaxResponseTime timer (and the ping ticker) have been allowed to fire", "Close racing Write at lock granularity is explored with preemptions in C19"},
-		Run:    runC12, Replay: replayC12, Policies: 1, QuickS: 120, ThoroughS: 900,
+		Run:    runC12, Replay: replayC12, Policies: 1, QuickS: 200, ThoroughS: 900,
 	})
 }
 
